@@ -90,6 +90,15 @@ func mkID(x *big.Int) groupsig.ID {
 	return id
 }
 
+// bytes of an id on the wire: ID.Serialize (left-padded to 32 bytes), or the raw bytes of an id
+// longer than that (Serialize panics on those; a sender can still put them into SignMember)
+func idBytes(x *big.Int) []byte {
+	if len(x.Bytes()) > 32 {
+		return x.Bytes()
+	}
+	return mkID(x).Serialize()
+}
+
 func mkSec(x *big.Int) groupsig.Seckey {
 	var s groupsig.Seckey
 	s.Deserialize(x.Bytes())
@@ -305,10 +314,11 @@ const (
 	oFinished
 	oClosed
 	oRejected // CanAccept refused the message id (processed / stored earlier)
+	oPanic    // the handler panicked, the party recovered: message dropped, party goes on
 	oOther
 )
 
-var oNames = []string{"no-key", "hash-mismatch", "bad-sign", "rand-nil", "bad-rand", "dup", "added", "recovered", "existed", "finished", "closed", "rejected-by-id", "other"}
+var oNames = []string{"no-key", "hash-mismatch", "bad-sign", "rand-nil", "bad-rand", "dup", "added", "recovered", "existed", "finished", "closed", "rejected-by-id", "panic-recovered", "other"}
 
 const (
 	tNone = iota
@@ -347,7 +357,7 @@ func classify(st logical.VerifR1Step) (int, int) {
 	l := st.Logs
 	switch {
 	case has(l, "recover error"):
-		return oOther, term
+		return oPanic, term
 	case has(l, "finished party"):
 		return oFinished, term
 	case has(l, "working party") && !has(l, "round1 update"):
@@ -736,7 +746,7 @@ func main() {
 		byz := func(j int) vmsg {
 			m := mk("", j)
 			o := r.Intn(len(others))
-			switch r.Intn(19) {
+			switch r.Intn(21) {
 			case 0, 1, 2: // signs another hash and says so; filed under the block hash
 				m.kind = "other-hash-claimed"
 				m.dh, m.dhash = others[o], otherHash[o]
@@ -810,6 +820,18 @@ func main() {
 				m.kind = "outsider"
 				m.member = -1
 				m.sender = outsiderID
+				m.sig = valPoint(groupsig.Sign(mkSec(outsiderKey), bhHash.Bytes()), single(iBH, outsiderKey))
+				m.rsig = valPoint(groupsig.Sign(mkSec(outsiderKey), preRandom), single(prIdx, outsiderKey))
+			case 19, 20: // signer id longer than the 32 bytes ID.Serialize accepts (it panics): 33 or 64 bytes
+				nb := 33
+				if r.Bool() {
+					nb = 64
+				}
+				idb := r.Bytes(nb)
+				idb[0] |= 0x80
+				m.kind = fmt.Sprintf("long-id-%d", nb)
+				m.member = -1
+				m.sender = new(big.Int).SetBytes(idb)
 				m.sig = valPoint(groupsig.Sign(mkSec(outsiderKey), bhHash.Bytes()), single(iBH, outsiderKey))
 				m.rsig = valPoint(groupsig.Sign(mkSec(outsiderKey), preRandom), single(prIdx, outsiderKey))
 			case 18: // valid share, message filed under another block hash (cvm.BlockHash is not read by the round)
@@ -895,6 +917,11 @@ func main() {
 				"replayed_at_start": nFut, "through_processor": procMode, "arrived_before_cast": nPre, "keys_registered_by_message": viaMsg, "faulty_registration": atk,
 				"outsider_id": outsiderID.String(), "squatted_member": squatted, "messages": ml}
 		}
+		for i := 0; i < nFut; i++ {
+			if strings.HasPrefix(msgs[i].kind, "long-id") || strings.HasPrefix(msgs[i].kind, "dup:long-id") {
+				nFut = i
+			}
+		}
 		// every message travels as the node sends it: protobuf bytes decoded by
 		// net.UnMarshalConsensusVerifyMessage, so the message id is the decoder's.  (The decoder cannot
 		// return a message whose share signature does not parse - it dereferences nil; such messages
@@ -902,7 +929,7 @@ func main() {
 		encode := func(m vmsg) []byte {
 			ver := int32(common.ConsensusVersion)
 			pbm := &middleware_pb.ConsensusVerifyMessage{BlockHash: m.filed.Bytes(), RandomSign: m.rsig.sig.Serialize(),
-				Sign: &middleware_pb.SignData{DataHash: m.dhash.Bytes(), DataSign: m.sig.sig.Serialize(), SignMember: mkID(m.sender).Serialize(), Version: &ver}}
+				Sign: &middleware_pb.SignData{DataHash: m.dhash.Bytes(), DataSign: m.sig.sig.Serialize(), SignMember: idBytes(m.sender), Version: &ver}}
 			bs, err := proto.Marshal(pbm)
 			if err != nil {
 				panic(err)
@@ -1056,7 +1083,8 @@ func main() {
 			v.Log.Take()
 		}
 		plog.Take()
-		order := []int{} // indices of msgs in the order the party saw them (after the replayed ones)
+		var panicked []string // kinds of the messages that made the handler panic
+		order := []int{}      // indices of msgs in the order the party saw them (after the replayed ones)
 		skipped := map[int]bool{}
 		waitEnd := func() int { // proc mode: the party ended; how?
 			for t := 0; t < 400 && !(vp.Finished(bhHash) && !vp.HasParty(bhHash)); t++ {
@@ -1082,9 +1110,21 @@ func main() {
 		}
 		procStep := func(logs []logical.VerifR1LogLine) (int, int) {
 			oc, _ := classify(logical.VerifR1Step{Logs: logs})
+			if oc == oOther && !has(logs, "round1 update") {
+				oc = oPanic // the handler's first log line did not come out
+			}
 			term := tNone
 			if oc == oExisted || has(logs, "round2 start") {
 				term = waitEnd()
+			}
+			if oc == oPanic {
+				// a recovered panic must leave the party alone: give waitUntilDone a moment to show otherwise
+				for t := 0; t < 12 && !vp.Finished(bhHash); t++ {
+					time.Sleep(5 * time.Millisecond)
+				}
+				if vp.Finished(bhHash) {
+					term = waitEnd()
+				}
 			}
 			return oc, term
 		}
@@ -1149,6 +1189,12 @@ func main() {
 					} else {
 						oc, term := procStep(seg)
 						obs[cur] = [2]int{oc, term}
+						if oc == oPanic {
+							panicked = append(panicked, strings.TrimPrefix(msgs[cur].kind, "dup:"))
+							if term != tNone {
+								res.Violate("C15/handler-panic-ends-party:"+strings.TrimPrefix(msgs[cur].kind, "dup:"), fmt.Sprintf("kept message %d (%s) made the handler panic; instead of being dropped it ended the party (%s)", cur, msgs[cur].kind, tNames[term]), desc())
+							}
+						}
 						if oc == oAdded || oc == oRecovered {
 							admitted = append(admitted, cur)
 						}
@@ -1229,7 +1275,7 @@ func main() {
 			procTerm := tNone
 			if procMode {
 				vp.OnMessageVerify(cvm)
-				st.Logs = v.Log.Take()
+				st.Logs = append(v.Log.Take(), plog.Take()...)
 				_, procTerm = procStep(st.Logs)
 			} else {
 				st = v.Update(cvm)
@@ -1242,8 +1288,11 @@ func main() {
 				term = procTerm
 			}
 			obs[i] = [2]int{oc, term}
-			if has(st.Logs, "recover error") {
-				res.Violate("C15/panic:party-update:"+m.kind, "the party's Update panicked (recovered by the party): "+st.Logs[len(st.Logs)-1].Text[:200], desc())
+			if oc == oPanic {
+				panicked = append(panicked, strings.TrimPrefix(m.kind, "dup:"))
+				if term != tNone {
+					res.Violate("C15/handler-panic-ends-party:"+strings.TrimPrefix(m.kind, "dup:"), fmt.Sprintf("message %d (%s) made the handler panic; instead of being dropped it ended the party (%s): later valid shares find no party", i, m.kind, tNames[term]), desc())
+				}
 			}
 			if m.honest && m.member >= 0 && (oc == oBadSign || oc == oBadRand || oc == oHashMismatch) {
 				res.Violate(vkey("C15/valid-share-rejected"), fmt.Sprintf("message %d: the valid share of member %d was rejected (%s)", i, m.member, oNames[oc]), desc())
@@ -1363,7 +1412,14 @@ func main() {
 					cls = strings.TrimPrefix(msgs[ai].kind, "dup:")
 				}
 			}
-			res.Violate(vkey("C15/finalisation-blocked:"+cls), fmt.Sprintf("%d >= k=%d members delivered valid shares, yet the block was not generated (party end: %s)", len(hon), k, tNames[finalTerm]), desc())
+			if len(panicked) > 0 && finalTerm == tErrOther {
+				cls = "handler-panic:" + panicked[0]
+			}
+			fk := vkey("C15/finalisation-blocked:" + cls)
+			if strings.HasPrefix(cls, "handler-panic") {
+				fk = "C15/finalisation-blocked:" + cls
+			}
+			res.Violate(fk, fmt.Sprintf("%d >= k=%d members delivered valid shares, yet the block was not generated (party end: %s)", len(hon), k, tNames[finalTerm]), desc())
 		}
 
 		// ---- model case ----
